@@ -193,31 +193,62 @@ def check(case, ctx):
     # ---- coordinate model
     if got.name != case["name"]:
         raise Violation("result name differs from the input's", got=got.name, expected=case["name"])
-    for d in rdims:
-        if d in ds.coords:
-            if d not in got.coords:
-                raise Violation("dimension coordinate of the grid dataset missing on the result", dim=d, new=d not in dims)
-            same_coord(got.coords[d], ds.coords[d], d)
-        elif d in got.coords:
-            raise Violation("result carries a dimension coordinate the grid dataset does not define", dim=d)
-    for name, c in got.coords.items():
-        stale = [d for d in c.dims if d in old_dims]
-        if stale:
-            raise Violation("result carries a coordinate defined on the abandoned dimension", coord=str(name), dims=list(c.dims))
-    for c in case["ndcoords"]:
-        fits = all(d in rdims for d in c["dims"])
-        want = fits and case["keep_coords"]
-        have = c["name"] in got.coords
-        if want and not have:
-            raise Violation("fitting dataset coordinate not attached although keep_coords=True", coord=c["name"], dims=c["dims"])
-        if have and not want:
-            raise Violation("coordinate attached although it does not fit / keep_coords=False", coord=c["name"], dims=c["dims"],
-                            keep_coords=case["keep_coords"])
-        if have:
-            same_coord(got.coords[c["name"]], ds.coords[c["name"]], c["name"])
-    extra_coords = set(map(str, got.coords)) - set(rdims) - {c["name"] for c in case["ndcoords"]}
-    if extra_coords:
-        raise Violation("unexpected coordinates on the result", coords=sorted(extra_coords))
+
+    def coordinate_model(got, via):
+        for d in rdims:
+            if d in ds.coords:
+                if d not in got.coords:
+                    raise Violation(via + "dimension coordinate of the grid dataset missing on the result", dim=d, new=d not in dims)
+                same_coord(got.coords[d], ds.coords[d], d)
+            elif d in got.coords:
+                raise Violation(via + "result carries a dimension coordinate the grid dataset does not define", dim=d)
+        for name, c in got.coords.items():
+            stale = [d for d in c.dims if d in old_dims]
+            if stale:
+                raise Violation(via + "result carries a coordinate defined on the abandoned dimension", coord=str(name), dims=list(c.dims))
+        for c in case["ndcoords"]:
+            fits = all(d in rdims for d in c["dims"])
+            want = fits and case["keep_coords"]
+            have = c["name"] in got.coords
+            if want and not have:
+                raise Violation(via + "fitting dataset coordinate not attached although keep_coords=True", coord=c["name"], dims=c["dims"])
+            if have and not want:
+                raise Violation(via + "coordinate attached although it does not fit / keep_coords=False", coord=c["name"], dims=c["dims"],
+                                keep_coords=case["keep_coords"])
+            if have:
+                same_coord(got.coords[c["name"]], ds.coords[c["name"]], c["name"])
+        extra_coords = set(map(str, got.coords)) - set(rdims) - {c["name"] for c in case["ndcoords"]}
+        if extra_coords:
+            raise Violation(via + "unexpected coordinates on the result", coords=sorted(extra_coords))
+
+    coordinate_model(got, "")
+
+    # ---- the same request through the other public entry points: the pre-defined grid ufunc called directly, the
+    # Grid.apply_as_grid_ufunc method and the module-level apply_as_grid_ufunc with the same function and widths
+    routes = []
+    if len(case["op_axes"]) == 1 and not weighted:
+        from xgcm import gridops
+        from xgcm.grid_ufunc import apply_as_grid_ufunc
+
+        n1 = case["op_axes"][0]
+        uf = getattr(gridops, f"{case['op']}_{case['data_pos'][n1]}_to_{case['to'][n1]}", None)
+        if uf is not None:
+            okw = dict(boundary={n1: case["boundary"]}, fill_value={n1: case["fill"]}, keep_coords=case["keep_coords"])
+            sig = f"(q:{case['data_pos'][n1]})->(q:{case['to'][n1]})"
+            bw = {"q": tuple(uf.boundary_width["X"])} if uf.boundary_width else None
+            calls = {
+                "gridops ufunc called directly: ": lambda da: uf(grid, da, axis=[(n1,)], **okw),
+                "Grid.apply_as_grid_ufunc: ": lambda da: grid.apply_as_grid_ufunc(uf.ufunc, da, axis=[(n1,)], signature=sig, boundary_width=bw,
+                                                                                 pad_before_func=uf.pad_before_func, **okw),
+                "apply_as_grid_ufunc: ": lambda da: apply_as_grid_ufunc(uf.ufunc, da, axis=[(n1,)], grid=grid, signature=sig, boundary_width=bw,
+                                                                       pad_before_func=uf.pad_before_func, **okw),
+            }
+            for via, fn in calls.items():
+                alt = must_return(via.rstrip(": "), fn, make_input(carry0))
+                if set(alt.dims) != set(rdims) or not np.array_equal(np.asarray(alt.transpose(*rdims).values), a):
+                    raise Violation(via + "values / dims differ from the Grid method's", got_dims=list(alt.dims), expected_dims=rdims)
+                coordinate_model(alt, via)
+                routes.append(via)
 
     touching = any(any(d.startswith(n.lower()) for n in case["op_axes"]) for c in case["ndcoords"] for d in c["dims"])
     missing_dc = any(d not in case["dimcoords"] for d in rdims)
@@ -229,6 +260,8 @@ def check(case, ctx):
         classes.append("nd-coord")
     if any(len(c["dims"]) == 0 for c in case["ndcoords"]):
         classes.append("0d-coord")
+    if routes:
+        classes.append("other-entry-points")
     return {"nontrivial": bool(touching or case["carry"] == "mislabelled" or missing_dc), "classes": classes}
 
 
